@@ -81,14 +81,21 @@ def run(ctx):
              ('default', MATH_ATOMS_D, 3 if quick else 4, ['strict'], dict(in_math=True, mdelim=''))]
     if not quick:
         plans.append(('default', MATH_ATOMS, 6, ['strict', 'tolerant'], None))
+    # configured delimiter lists: control-word delimiters next to the standard ones
+    custom = dict(inline=[('$', '$'), ('\\startf', '\\stopf')], display=[('\\[', '\\]'), ('\\begin{math}', '\\end{math}')])
+    plans.append(('default', ['$', 'a', '{', '}', ' ', '\\[', '\\]', '\\startf', '\\stopf', '\\begin{math}', '\\end{math}', '\\text'],
+                  4 if quick else 5, ['strict', 'tolerant'], custom))
+    pc.SOUP_VOLUME.update(num=150 if quick else 1500, nseeds=8 if quick else 16, seed=ctx.seed)
+    plans += [('default', MATH_ATOMS_D, pc.SOUP + (10 if quick else 16), ['strict', 'tolerant'], None),
+              ('k', MATH_ATOMS_K, pc.SOUP + (10 if quick else 16), ['strict', 'tolerant'], None)]
     for cname, atoms, K, modes, st_kw in plans:
         invs = ['ModelModes', 'NoNonterm'] + (['ModelModesTolerant'] if 'tolerant' in modes else [])
         jobs = pc.export_jobs(atoms, cname, K, modes, invs, payload=dict(sample_every=197 if quick else 1997),
                               timeout=6000, st_kw=st_kw)
         m = common.run_shards(ctx, ('harness.c10', 'ModesConsumer'), jobs,
-                              what='ParseRun %s K=%d %d atoms %s (ModesOK)' % (cname, K, len(atoms), st_kw or ''))
+                              what='ParseRun %s %s %d atoms %s (ModesOK)' % (cname, pc.kdesc(K), len(atoms), st_kw or ''))
         ctx.add_merged(m)
-        ctx.log('%s K=%d/%d atoms %s: %d strings; %s' % (cname, K, len(atoms), st_kw or '', m['n'],
+        ctx.log('%s %s/%d atoms %s: %d strings; %s' % (cname, pc.kdesc(K), len(atoms), st_kw or '', m['n'],
                 {k: v for k, v in m['counters'].items() if ':' in k}))
         validate(ctx, m)
     ctx.exhaustive = True
